@@ -51,6 +51,31 @@ Theorem C20_unresolvable_is_load_error : forall world t g,
 Proof. exact unresolvable_is_load_error. Qed.
 Print Assumptions C20_unresolvable_is_load_error.
 
+(* ---- the table itself, under arbitrary scripted histories (EnterScope / Load / LeaveScope in any nesting, any name bound any
+   number of times per scope); every run executes `exec` on the harness' scripts against the real typematch.ImportsTab *)
+Theorem C20_script_balanced : forall ops t, wf_script 0 ops = true -> exec t ops = Ok t.
+Proof. exact script_balanced. Qed.
+Print Assumptions C20_script_balanced.
+
+(* a lookup answers with the most recent binding of the name whose scope has not been left, else with the initial table *)
+Theorem C20_lookup_is_most_recent_live_binding : forall init h t name,
+  exec [init] h = Ok t -> lookup t name = hist_lookup 0 (rev h) name init.
+Proof. exact lookup_is_most_recent_live_binding. Qed.
+Print Assumptions C20_lookup_is_most_recent_live_binding.
+
+(* loadRuleGroup's effect on the table is the script EnterScope; Load...; LeaveScope, hence balanced whatever it imports *)
+Theorem C20_group_is_a_balanced_script : forall imps t,
+  load_all (enter t) imps = exec (enter t) (import_ops imps) /\ exec t (group_script imps) = Ok t.
+Proof. intros imps t. split; [apply load_all_is_exec|apply group_script_balanced]. Qed.
+Print Assumptions C20_group_is_a_balanced_script.
+
+Example c20_script_two_bindings_of_one_name :
+  wf_script 0 [OEnter; OLoad "template" "html/template"; OLoad "template" "text/template"; OLeave; OEnter; OLeave] = true /\
+  show_trace ["text/template"; "html/template"] ["template"] [("template", "text/template")]
+             [OEnter; OLoad "template" "html/template"; OLoad "template" "text/template"; OLeave; OEnter; OLeave]
+  = ["0"; "1"; "0"; "0"; "0"; "0"].
+Proof. vm_compute. split; reflexivity. Qed.
+
 (* ---- a concrete world: stdlib io and a third-party package with the same base name *)
 Definition w : string -> string -> option tkind :=
   world_of [("io", "Reader", KIface ["Read"]); ("io", "Writer", KIface ["Write"]);
